@@ -67,6 +67,9 @@ P_C17 == [][Step(C17_Step)]_vars
 P_C11 == [][Step(C11_Safety)]_vars
 P_C11f == [][LET e == Trace[l'] IN e.ev = "faultEnd" => C11_Final(hist.ref, e)]_vars
 P_C18 == [][Step(C18_Step)]_vars
+\* C17, interleaving safety: state invariants on the states sampled while the reconcilers run concurrently
+I_C17 == Trace[l].ev = "sample" => C13_Inv(Trace[l].state)
+P_C17c == [][LET e == Trace[l'] IN e.ev = "concurrentEnd" => ~e.res.panic]_vars
 P_C19 == [][Step(C19_Step)]_vars
 
 \* C09, spacing: two syncs of one replica set that issue pod writes (status writes succeeding) are at least
